@@ -435,6 +435,15 @@ func cmdCheck(args []string) int {
 	}
 
 	meta := loadPropMeta(id)
+	meta.Assumptions = append([]string{
+		"the gosmt interpreter implements go/ssa semantics for the instruction kinds jennifer uses (validated on this run by replaying solver witnesses against the compiled code)",
+		"standard-library callees are modelled by the stubs/contracts listed under stubs_used (DESIGN.md 3.6); counterexamples are re-validated against the real functions",
+		"a path is pruned when z3 5.1.0 answers unsat and z3 4.8.12 does not dissent; an obligation is discharged only by an unsat with no validated sat",
+		"structural induction over opaque children (DESIGN.md 4.2) is argued on paper",
+	}, meta.Assumptions...)
+	if meta.Outside == nil {
+		meta.Outside = []string{}
+	}
 	var encList []string
 	for f := range encoded {
 		encList = append(encList, f)
@@ -479,7 +488,7 @@ func cmdCheck(args []string) int {
 		"witnesses_mismatched":          mismatched,
 		"witnesses_skipped_ambient":     ambientSkipped,
 		"ground_facts_learned":          gfCount,
-		"inconclusive":                  inconclusive,
+		"inconclusive":                  nonNil(inconclusive),
 		"known_findings_reproduced":     keys(knownHits),
 		"solver_queries":                stats.Queries,
 		"solver_time_s": map[string]float64{"z3-4.8.12": float64(stats.NanosZ3) / 1e9, "z3-5.1.0": float64(stats.NanosZN) / 1e9, "cvc5-1.0": float64(stats.NanosCV) / 1e9},
@@ -645,4 +654,11 @@ func cmdReplay(args []string) int {
 	}
 	fmt.Println("replay: no assertion failed")
 	return 0
+}
+
+func nonNil(s []string) []string {
+	if s == nil {
+		return []string{}
+	}
+	return s
 }
